@@ -10,7 +10,7 @@ from fractions import Fraction as F
 warnings.filterwarnings('ignore')
 import numpy as np
 
-from common import f2b, b2f, cont_match, ts, run_driver_json, Tally, rng_for, scale_of
+from common import f2b, b2f, cont_match, ts, run_driver_json, Tally, rng_for, scale_of, hv
 
 from qstrader.broker.portfolio.position import Position
 from qstrader.broker.transaction.transaction import Transaction
@@ -37,10 +37,10 @@ def gen_case(rng):
         elif net != 0 and r < 0.45:
             q = -net - (1 if net > 0 else -1) * rng.choice([1, 5, 40])      # flip through zero
         else:
-            q = rng.choice([1, -1]) * rng.choice([1, 2, 10, 50, 100, 1000])
+            q = hv(rng, rng.choice([1, -1]) * rng.choice([1, 2, 10, 50, 100, 1000]), 'int', 0.2)
         t += rng.choice([0, 0, 1, 60, 3600, 86400])
-        price = rng.choice([round(rng.uniform(1, 300), 2), rng.uniform(1, 300), float(rng.randint(1, 200))])
-        comm = rng.choice([0.0, 1.0, rng.uniform(0, 20)])
+        price = hv(rng, rng.choice([round(rng.uniform(1, 300), 2), rng.uniform(1, 300), float(rng.randint(1, 200))]), 'pos')
+        comm = hv(rng, rng.choice([0.0, 1.0, rng.uniform(0, 20)]), 'pos')
         if i > 0 and rng.random() < 0.04:
             price = rng.choice([0.0, -2.0])                   # refused
         if i > 0 and rng.random() < 0.03:
